@@ -238,11 +238,38 @@ def _slice_names(fnode, expr, limit=8):
     return seen, stmts
 
 
+class _CompLoop:
+    """a list comprehension presented like the for-loop that builds the
+    task list (target, iter and the tuple appended per task)"""
+
+    def __init__(self, comp, name):
+        g = comp.generators[0]
+        self.target, self.iter, self.node = g.target, g.iter, comp
+        app = ast.Call(ast.Attribute(ast.Name(name, ast.Load()), "append",
+                                     ast.Load()), [comp.elt], [])
+        self.body = [ast.Expr(app)]
+        self._fields = ("target", "iter", "body")
+        self.lineno = comp.lineno
+
+
 def task_lists(parent, tasks_expr):
     """the lists zipped to form the task tuples"""
     out = []
     if not isinstance(tasks_expr, ast.Name):
         return out, None
+    for s in walk_no_nested(parent.node):
+        if isinstance(s, ast.Assign) and \
+                norm(s.targets[0]) == tasks_expr.id and \
+                isinstance(s.value, ast.ListComp) and \
+                len(s.value.generators) == 1 and \
+                not s.value.generators[0].ifs and \
+                isinstance(s.value.elt, ast.Tuple):
+            it = s.value.generators[0].iter
+            if isinstance(it, ast.Call) and norm(it.func) == "zip":
+                out = [norm(a) for a in it.args]
+            elif isinstance(it, ast.Name):
+                out = [it.id]
+            return out, _CompLoop(s.value, tasks_expr.id)
     for s in walk_no_nested(parent.node):
         if isinstance(s, ast.For) and any(
                 isinstance(c, ast.Call) and isinstance(c.func, ast.Attribute)
@@ -371,7 +398,8 @@ def r2(ctx, prog, closure, bglobal, worker, parent, tasks_expr, wrapper):
         raise AnalysisError("C07-R2: task construction loop not recognised")
     varying = names_in(loop.target)
     tup = None
-    for c in ast.walk(loop):
+    for c in (ast.walk(loop) if isinstance(loop, ast.AST)
+              else ast.walk(loop.body[0])):
         if isinstance(c, ast.Call) and isinstance(c.func, ast.Attribute) and \
                 c.func.attr == "append" and c.args and \
                 isinstance(c.args[0], ast.Tuple):
@@ -584,6 +612,22 @@ def r4(ctx, parent):
 # --------------------------------------------------------------------------
 def shared_arrays(worker):
     """names bound to np.ndarray(..., buffer=<shm>.buf)"""
+    nested = [n for n in ast.walk(worker.node)
+              if isinstance(n, ast.FunctionDef) and n is not worker.node]
+    for nf in nested:
+        stores_param = any(
+            isinstance(t, ast.Subscript) and isinstance(t.value, ast.Name)
+            and t.value.id in {a.arg for a in nf.args.args}
+            for st in ast.walk(nf) if isinstance(st, (ast.Assign,
+                                                      ast.AugAssign))
+            for t in (st.targets if isinstance(st, ast.Assign)
+                      else [st.target]))
+        if stores_param:
+            raise AnalysisError(
+                "the worker delegates writes to a local helper (%s) that "
+                "stores into one of its parameters: per-phase access "
+                "extents of the shared arrays cannot be attributed "
+                "(idiom not recognised)" % nf.name)
     out = {}
     for s in walk_no_nested(worker.node):
         if isinstance(s, ast.Assign) and isinstance(s.value, ast.Call) and \
